@@ -5,7 +5,7 @@ from . import inputs, hist, synth
 PROP = 'C06'
 LEVEL = 'exploration'
 WALL_CAP = {'quick': 300, 'thorough': 3000}
-RUNS = {'quick': 2500, 'thorough': 60000}
+RUNS = {'quick': 6000, 'thorough': 80000}
 RULE = ('one run = a model (sample, synthesised graph of any block type x version, API-built model, or empty Create(version)) + 3..25 steps of AddBlock (populated instance of '
         'any of the 304 registered types, its serialised references pointed at existing blocks), DeleteBlock, ReplaceBlock, SetBlockOrder (seeded permutation), '
         'DeleteBlockByType (all / orphaned only), DeleteUnreferencedBlocks, restart. After every step the header accessors are compared with an executable model of an '
